@@ -188,7 +188,7 @@ Section EndToEnd.
   Hypothesis HL : lib_laws L.
 
   Notation to_tree := (Config.to_tree F lto_basic lsensitive py_strlen).
-  Notation build_cfg := (Config.build_cfg F ldefault lcallable).
+  Notation build_cfg := (Config.build_cfg F lvalidate lto_python ldefault lcallable lflag vrun).
   Notation deep_valid := (Roundtrip.deep_valid F lvalidate lflag vrun).
   Notation cdumps := (fmt_config_dumps F lto_basic lsensitive py_strlen B L).
   Notation cloads := (fmt_config_loads F lvalidate lto_python ldefault lcallable lflag vrun B L).
@@ -278,13 +278,13 @@ End EndToEnd.
 (* ------------------------------------------------------------------------------------------ *)
 (* schema rt_fs (RoundtripLemmas.v): n = IntField(1..100), s = StringField(min_len=2, required), sub.a = IntField,
    rows = ListField(Schema(v = IntField(required)));  Config(schema, n=42, s="<a&b> ", rows=[{"v": 1}, {"v": -7}]) *)
-Definition xc_kw : list (str * pyval) :=
-  [(sa "n", PInt 42); (sa "s", PStr (sa "<a&b> "));
-   (sa "rows", PList 0 [PDict 0 [(PStr (sa "v"), PInt 1)]; PDict 0 [(PStr (sa "v"), PInt (-7))]])].
-Definition xc_state : icfg := Eval vm_compute in snd (fst (ctor [] w0 false rt_fs xc_kw)).
-Definition xc_w : world := Eval vm_compute in fst (fst (ctor [] w0 false rt_fs xc_kw)).
+Definition xc_kw : list (str * kwv) :=
+  [(sa "n", KV (PInt 42)); (sa "s", KV (PStr (sa "<a&b> ")));
+   (sa "rows", KV (PList 0 [PDict 0 [(PStr (sa "v"), PInt 1)]; PDict 0 [(PStr (sa "v"), PInt (-7))]]))].
+Definition xc_state : icfg := Eval vm_compute in snd (fst (ctor [] w0 false [] rt_fs xc_kw)).
+Definition xc_w : world := Eval vm_compute in fst (fst (ctor [] w0 false [] rt_fs xc_kw)).
 
-Example xc_state_reached : ctor [] w0 false rt_fs xc_kw = (xc_w, xc_state, OOk).
+Example xc_state_reached : ctor [] w0 false [] rt_fs xc_kw = (xc_w, xc_state, OOk).
 Proof. vm_compute. reflexivity. Qed.
 
 Example xc_state_deep_valid : deep_valid leaf lvalidate lflag (vrun []) false [] rt_fs xc_state.
@@ -311,7 +311,7 @@ Proof. vm_compute. reflexivity. Qed.
 Example xc_loads_computed :
   match xml_config_dumps leaf lto_basic l_sensitive py_strlen ideal_doc ideal_lib (sa "config") rt_fs xc_state with
   | Ok doc =>
-      let '(w1, fresh) := build_cfg leaf ldefault l_callable xc_w rt_fs in
+      let '(w1, fresh) := build_cfg leaf lvalidate lto_python ldefault l_callable lflag (vrun []) xc_w rt_fs in
       let '(_, c', o) := xml_config_loads leaf lvalidate lto_python ldefault l_callable lflag (vrun []) ideal_doc ideal_lib
                            (sa "config") doc w1 fresh false [] rt_fs in
       let '(_, c'', o') := xml_config_loads leaf lvalidate lto_python ldefault l_callable lflag (vrun []) ideal_doc ideal_lib
@@ -326,12 +326,12 @@ Example xc_theorem_applies :
   exists doc w' c',
     xml_config_dumps leaf lto_basic l_sensitive py_strlen ideal_doc ideal_lib (sa "config") rt_fs xc_state = Ok doc /\
     xml_config_loads leaf lvalidate lto_python ldefault l_callable lflag (vrun []) ideal_doc ideal_lib (sa "config") doc
-      (fst (build_cfg leaf ldefault l_callable xc_w rt_fs)) (snd (build_cfg leaf ldefault l_callable xc_w rt_fs)) false [] rt_fs
+      (fst (build_cfg leaf lvalidate lto_python ldefault l_callable lflag (vrun []) xc_w rt_fs)) (snd (build_cfg leaf lvalidate lto_python ldefault l_callable lflag (vrun []) xc_w rt_fs)) false [] rt_fs
       = (w', c', OOk) /\
     same_values leaf rt_fs c' xc_state /\ deep_valid leaf lvalidate lflag (vrun []) false [] rt_fs c'.
 Proof.
   apply (xml_save_load leaf lvalidate lto_python lto_basic ldefault l_callable l_sensitive lflag (vrun []) py_strlen
            inst_leaf_roundtrip (inst_vrun_lookup []) ideal_doc ideal_lib ideal_lib_laws false [] rt_fs xc_state
            xc_state_deep_valid (sa "config") xc_tree_in_xml_domain xc_w).
-  destruct (build_cfg leaf ldefault l_callable xc_w rt_fs); reflexivity.
+  destruct (build_cfg leaf lvalidate lto_python ldefault l_callable lflag (vrun []) xc_w rt_fs); reflexivity.
 Qed.
